@@ -78,7 +78,8 @@ def gen_case(rng):
     pool = PY_PATTERNS + (ML_PATTERNS * 3 if fl["multiline"] else [])
     pat = rng.choice(pool)
     nfiles = rng.randint(1, 3)
-    files = [(NAMES[i], gen_file(rng, fl["crlf"])) for i in range(nfiles)]
+    dos = (not fl["crlf"]) and rng.random() < 0.1      # \r\n line ends searched without --crlf
+    files = [(NAMES[i], gen_file(rng, fl["crlf"] or dos)) for i in range(nfiles)]
     ctx_on = bool(fl.get("after") or fl.get("before"))
     named = [
         # hiargs.rs: with context the file separator is the context separator
